@@ -245,8 +245,196 @@ pub fn corpus() -> Vec<&'static str> {
     ]
 }
 
+/// A number spelled so that its value is known without the parser under test: Rust's own
+/// `str::parse::<f64>` reads the same text (plain decimal / exponent forms only).
+fn known_number(r: &mut Rng, lo: f64, hi: f64) -> (String, f64) {
+    let v = match r.below(10) {
+        0 => lo,
+        1 => hi,
+        2 => lo - (hi - lo) * r.unit(),
+        3 => hi + (hi - lo) * r.unit(),
+        4 => r.range(lo, hi).round(),
+        _ => r.range(lo, hi),
+    };
+    let text = match r.below(9) {
+        0 => format!("{}", v.round() as i64),
+        1 => format!("{:.1}", v),
+        2 => format!("{:.3}", v),
+        3 => format!("{:e}", v),
+        4 => format!("{:E}", v),
+        5 => format!("{}.", v.round() as i64),
+        6 => format!("+{}", v.abs()),
+        7 => format!("{}e{}", (v * 1000.0).round() as i64, -3),
+        _ => format!("{}", v),
+    };
+    let val: f64 = text.parse().expect("plain number");
+    (text, val)
+}
+
+fn angle_of(r: &mut Rng) -> (String, f64) {
+    match r.below(7) {
+        0 => {
+            let (t, v) = known_number(r, -720.0, 720.0);
+            (format!("{}deg", t), v)
+        }
+        1 => {
+            let (t, v) = known_number(r, 0.0, 360.0);
+            (format!("{}\u{b0}", t), v)
+        }
+        2 => {
+            let (t, v) = known_number(r, -7.0, 7.0);
+            (format!("{}rad", t), v * 180.0 / std::f64::consts::PI)
+        }
+        3 => {
+            let (t, v) = known_number(r, -400.0, 800.0);
+            (format!("{}grad", t), v * 360.0 / 400.0)
+        }
+        4 => {
+            let (t, v) = known_number(r, -2.0, 3.0);
+            (format!("{}turn", t), v * 360.0)
+        }
+        _ => known_number(r, -720.0, 1080.0),
+    }
+}
+
+/// Valid strings built from an abstract syntax tree whose meaning is computed here, from the statement:
+/// percentages are hundredths, `deg`/`°`/unitless angles are degrees, `rad`, `grad`, `turn` are converted to
+/// degrees, alpha is a number or a percentage and defaults to 1, hex digits are doubled when short and the
+/// hex alpha is AA/255. The colour is then built by the constructor of that space (C04/C05 judge those).
+fn meaning_oracle(s: &mut Session, ctx: &Ctx) {
+    let mut r = Rng::new(ctx.seed ^ 0xC01A57);
+    let n = if ctx.thorough { 400_000 } else { 20_000 };
+    for _ in 0..n {
+        let (alpha_text, alpha): (String, f64) = match r.below(4) {
+            0 | 1 => (String::new(), 1.0),
+            2 => {
+                let (t, v) = known_number(&mut r, 0.0, 1.0);
+                (format!("{}{}", sep(&mut r), t), v)
+            }
+            _ => {
+                let (t, v) = known_number(&mut r, 0.0, 100.0);
+                (format!("{}{}%", sep(&mut r), t), v / 100.0)
+            }
+        };
+        let (b0, b1) = (blanks(&mut r), blanks(&mut r));
+        let (text, want, kind): (String, Color, &str) = match r.below(10) {
+            0 => {
+                let len = *r.pick(&[3usize, 4, 6, 8]);
+                let ds: Vec<u8> = (0..len).map(|_| r.below(16) as u8).collect();
+                let txt: String = ds
+                    .iter()
+                    .map(|d| {
+                        let c = std::char::from_digit(*d as u32, 16).unwrap();
+                        if r.bool() {
+                            c.to_ascii_uppercase()
+                        } else {
+                            c
+                        }
+                    })
+                    .collect();
+                let byte = |i: usize| if len <= 4 { ds[i] * 17 } else { ds[2 * i] * 16 + ds[2 * i + 1] };
+                let a = if len == 4 || len == 8 { byte(3) as f64 / 255.0 } else { 1.0 };
+                (format!("{}{}", if r.bool() { "#" } else { "" }, txt), Color::from_rgba(byte(0), byte(1), byte(2), a), "hex")
+            }
+            1 | 2 => {
+                let pre = *r.pick(&["rgb(", "rgba(", ""]);
+                let (t1, v1) = known_number(&mut r, 0.0, 255.0);
+                let (t2, v2) = known_number(&mut r, 0.0, 255.0);
+                let (t3, v3) = known_number(&mut r, 0.0, 255.0);
+                let (s1, s2) = (sep(&mut r), sep(&mut r));
+                (
+                    format!("{}{}{}{}{}{}{}{}{}{}", pre, b0, t1, s1, t2, s2, t3, alpha_text, b1, if pre.is_empty() { "" } else { ")" }),
+                    Color::from_rgba_float(v1 / 255.0, v2 / 255.0, v3 / 255.0, alpha),
+                    "rgb-numeric",
+                )
+            }
+            3 => {
+                let pre = *r.pick(&["rgb(", "rgba(", ""]);
+                let (t1, v1) = known_number(&mut r, 0.0, 100.0);
+                let (t2, v2) = known_number(&mut r, 0.0, 100.0);
+                let (t3, v3) = known_number(&mut r, 0.0, 100.0);
+                let (s1, s2) = (sep(&mut r), sep(&mut r));
+                (
+                    format!("{}{}{}%{}{}%{}{}%{}{}{}", pre, b0, t1, s1, t2, s2, t3, alpha_text, b1, if pre.is_empty() { "" } else { ")" }),
+                    Color::from_rgba_float(v1 / 100.0, v2 / 100.0, v3 / 100.0, alpha),
+                    "rgb-percent",
+                )
+            }
+            4 | 5 => {
+                let hsv = r.bool();
+                let pre = if hsv { *r.pick(&["hsv(", "hsva("]) } else { *r.pick(&["hsl(", "hsla("]) };
+                let (ta, va) = angle_of(&mut r);
+                let (t2, v2) = known_number(&mut r, 0.0, 100.0);
+                let (t3, v3) = known_number(&mut r, 0.0, 100.0);
+                let (s1, s2) = (sep(&mut r), sep(&mut r));
+                let want = if hsv { Color::from_hsva(va, v2 / 100.0, v3 / 100.0, alpha) } else { Color::from_hsla(va, v2 / 100.0, v3 / 100.0, alpha) };
+                (format!("{}{}{}{}{}%{}{}%{}{})", pre, b0, ta, s1, t2, s2, t3, alpha_text, b1), want, if hsv { "hsv" } else { "hsl" })
+            }
+            6 => {
+                // gray: a non-negative number or percentage, no alpha
+                let percent = r.bool();
+                let (t, v) = known_number(&mut r, 0.0, if percent { 100.0 } else { 1.0 });
+                if v < 0.0 || t.starts_with('-') {
+                    continue;
+                }
+                let g = if percent { v / 100.0 } else { v };
+                (format!("gray({}{}{}{})", b0, t, if percent { "%" } else { "" }, b1), Color::from_rgba_float(g, g, g, 1.0), "gray")
+            }
+            7 => {
+                let p0 = *r.pick(&["lab(", "cielab("]);
+                let pre = recase(&mut r, p0);
+                let (t1, v1) = known_number(&mut r, 0.0, 100.0);
+                let (t2, v2) = known_number(&mut r, -128.0, 128.0);
+                let (t3, v3) = known_number(&mut r, -128.0, 128.0);
+                let (s1, s2) = (sep(&mut r), sep(&mut r));
+                (format!("{}{}{}{}{}{}{}{}{})", pre, b0, t1, s1, t2, s2, t3, alpha_text, b1), Color::from_lab(v1, v2, v3, alpha), "lab")
+            }
+            8 => {
+                let pre = recase(&mut r, "oklab(");
+                let (t1, v1) = known_number(&mut r, 0.0, 1.0);
+                let (t2, v2) = known_number(&mut r, -0.4, 0.4);
+                let (t3, v3) = known_number(&mut r, -0.4, 0.4);
+                let (s1, s2) = (sep(&mut r), sep(&mut r));
+                (format!("{}{}{}{}{}{}{}{}{})", pre, b0, t1, s1, t2, s2, t3, alpha_text, b1), Color::from_oklab(v1, v2, v3, alpha), "oklab")
+            }
+            _ => {
+                let p0 = *r.pick(&["lch(", "cielch("]);
+                let pre = recase(&mut r, p0);
+                let (t1, v1) = known_number(&mut r, 0.0, 100.0);
+                let (t2, v2) = known_number(&mut r, 0.0, 150.0);
+                let (ta, va) = angle_of(&mut r);
+                let (s1, s2) = (sep(&mut r), sep(&mut r));
+                (format!("{}{}{}{}{}{}{}{}{})", pre, b0, t1, s1, t2, s2, ta, alpha_text, b1), Color::from_lch(v1, v2, va, alpha), "lch")
+            }
+        };
+        let ws = ["", "", "", " ", "  ", "\t", "\n"];
+        let text = format!("{}{}{}", r.pick(&ws), text, r.pick(&ws));
+        let got = guard(|| parse_color(&text));
+        s.count_case(&format!("meaning {}", text), true);
+        s.tag(&format!("meaning:{}", kind));
+        let inp = || format!("{:?}", text);
+        match got {
+            None => s.fail("no-panic", "parser::parse_color", inp(), "panic".into()),
+            Some(None) => s.fail(
+                "valid-notation-is-accepted",
+                "parser::parse_color",
+                inp(),
+                format!("rejected; the {} notation with these numbers denotes {}", kind, crate::wire::show_color(&want)),
+            ),
+            Some(Some(c)) => {
+                let (a, b) = (c.to_rgba_float(), want.to_rgba_float());
+                let close = |x: f64, y: f64| (x - y).abs() <= 1e-9;
+                s.check(close(a.r, b.r) && close(a.g, b.g) && close(a.b, b.b) && close(a.alpha, b.alpha), "denotes-the-colour-its-numbers-specify", "parser::parse_color", inp, || {
+                    format!("parsed {}, the {} notation with these numbers denotes {}", crate::wire::show_color(&c), kind, crate::wire::show_color(&want))
+                });
+            }
+        }
+    }
+}
+
 pub fn run(s: &mut Session, ctx: &Ctx) {
     let mut rng = Rng::new(ctx.seed);
+    meaning_oracle(s, ctx);
     for t in corpus() {
         parse_op(s, t, "corpus");
     }
